@@ -151,7 +151,9 @@ def root_arg_problems(c, sv, op, coerced):
                 pr.append(f"resolver of selected field {root}.{fname} (key {key}) called {called.get(key, 0)} times")
             if ok and called.get(key, 0) != 1 and op["operation"] != "mutation" and not getattr(c.b, "cfg", None):
                 pr.append(f"resolver of selected field {root}.{fname} (key {key}) called {called.get(key, 0)} times although its arguments coerce per the specification")
-            if not ok and not any(e["path"] and e["path"][0] == key for e in c.real["errors"]):
+            # (when a non-null failure elsewhere nulled the whole of `data`, the other root fields may be abandoned before they
+            # report anything: only a response that still has data must explain every failing root field)
+            if not ok and c.real["data"] is not None and not any(e["path"] and e["path"][0] == key for e in c.real["errors"]):
                 pr.append(f"arguments of {root}.{fname} (key {key}) do not coerce but no error is reported for that field")
     return pr
 
